@@ -35,6 +35,8 @@ pub struct Lib {
     /// body-only knob 2: add an unused local / reorder statements
     pub body_shape: u8,
     pub n_files: u8,
+    /// file names that differ in case (`Types.gom`, `impls.gom`): byte order and case-insensitive order disagree
+    pub mixed_case_files: bool,
 }
 
 #[derive(Clone, Debug)]
@@ -101,6 +103,7 @@ impl Project {
                 body_knob: 0,
                 body_shape: 0,
                 n_files: 1 + rng.below(3) as u8,
+                mixed_case_files: false,
             });
         }
         for i in 0..n {
@@ -332,10 +335,12 @@ impl Project {
             let nf = (l.n_files as usize).clamp(1, 3).min(items.len().max(1));
             // file names in the order the compiler reads them (sorted); a trait must be declared
             // before any impl of it in that order, so trait declarations go first into the first file
-            let fnames: &[&str] = match nf {
-                1 => &["lib.gom"],
-                2 => &["a_part.gom", "lib.gom"],
-                _ => &["a_part.gom", "lib.gom", "z_more.gom"],
+            let fnames: &[&str] = match (nf, l.mixed_case_files) {
+                (1, _) => &["lib.gom"],
+                (2, false) => &["a_part.gom", "lib.gom"],
+                (2, true) => &["Types.gom", "impls.gom"],
+                (_, false) => &["a_part.gom", "lib.gom", "z_more.gom"],
+                (_, true) => &["Types.gom", "Zeta.gom", "impls.gom"],
             };
             let mut header = format!("package {}\n", l.name);
             for &j in &l.imports {
